@@ -157,13 +157,16 @@ func c06Valid() []string {
 	for _, c1 := range cyc {
 		for _, c2 := range cyc {
 			add("select " + at(c1, "y") + " as x, " + at(c2, "x") + " as y where true")
-			for _, c3 := range cyc[:12] {
+			for _, c3 := range append(append([]string(nil), cyc[:12]...), "{}") {
 				add("select " + at(c1, "y") + " as x, " + at(c2, "z") + " as y, " + at(c3, "x") + " as z where true")
 				// a field outside the cycle that refers into it
 				add("select " + at(c1, "y") + " as x, " + at(c2, "z") + " as y, " + at(c3, "y") + " as z where true")
 			}
 		}
 		add("select "+at(c1, "x")+" as x where true", "select key, "+at(c1, "x")+" as x where x = 'a'")
+		// a cycle of bare names, entered from a field, the filter, ORDER BY or GROUP BY
+		add("select y as x, z as y, x as z, "+at(c1, "x")+" as w where true", "select y as x, x as y where "+at(c1, "x")+" = 'a'", "select z as x, x as y, y as z where "+at(c1, "y"),
+			"select y as x, x as y, "+at(c1, "y")+" as w where true order by w", "select y as x, x as y, count(1) where true group by x", "select z as y, x as z, y as x where true order by y, z")
 	}
 	// zero-argument / odd-arity calls of every function
 	fns := []string{"lower", "upper", "int", "float", "str", "is_int", "is_float", "substr", "json", "split", "list", "float_list", "int_list", "flist", "ilist", "len", "join", "strlen", "cosine_distance", "l2_distance",
